@@ -218,6 +218,9 @@ def c_ecp5_bounded():
             except Exception as e: bad.append((fin, outs, f"{type(e).__name__}: {e}")); continue
             p = pll.params
             fb = l_to_n[p["p_FEEDBK_PATH"].replace("INT_O", "")]
+            need = [f"p_CLKO{ {0: 'P', 1: 'S', 2: 'S2', 3: 'S3'}[k_] }_DIV" for k_ in set(range(len(outs))) | {fb}]
+            if any(k_ not in p for k_ in need):          # a divider the configuration relies on is not on the emitted instance (primitive default would apply)
+                bad.append((fin, outs, dict(missing_instance_parameters=[k_ for k_ in need if k_ not in p], fb=fb))); continue
             names = {0: "P", 1: "S", 2: "S2", 3: "S3"}
             vco = fin / p["p_CLKI_DIV"] * p["p_CLKFB_DIV"] * p[f"p_CLKO{names[fb]}_DIV"]
             pfd = fin / p["p_CLKI_DIV"]
